@@ -19,3 +19,12 @@
 (assert (forall ((l Int) (j Int)) (! (=> (and (< 0 j) (< j (SM3T l))) (= (select (SM3PADARR l) j) 0)) :pattern ((select (SM3PADARR l) j)))))
 (assert (forall ((l Int) (j Int)) (! (and (<= 0 (select (SM3PADARR l) j)) (<= (select (SM3PADARR l) j) 255)) :pattern ((select (SM3PADARR l) j)))))
 (assert (forall ((l Int)) (! (=> (and (<= 0 l) (< l 2305843009213693952)) (= (be64sum (SM3PADARR l) (SM3T l)) (* 8 l))) :pattern ((SM3PADARR l)))))
+; big-endian 32-bit counter block, digest bytes, and the KDF of GB/T 32918.4 5.4.3
+(declare-fun BE32ARR (Int) (Array Int Int))
+(assert (forall ((c Int) (j Int)) (! (and (<= 0 (select (BE32ARR c) j)) (<= (select (BE32ARR c) j) 255)) :pattern ((select (BE32ARR c) j)))))
+(assert (forall ((c Int)) (! (=> (and (<= 0 c) (< c 4294967296)) (= (+ (* 16777216 (select (BE32ARR c) 0)) (* 65536 (select (BE32ARR c) 1)) (* 256 (select (BE32ARR c) 2)) (select (BE32ARR c) 3)) c)) :pattern ((BE32ARR c)))))
+; words of SM3(m[0..l))
+(declare-fun SM3W ((Array Int Int) Int) (Array Int Int))
+(assert (forall ((m (Array Int Int)) (l Int)) (! (= (SM3W m l) (SM3F SM3IV (CAT m l (SM3PADARR l) 0 (+ (SM3T l) 8)) 0 (div (+ l (SM3T l) 8) 64))) :pattern ((SM3W m l)))))
+; the words of a digest are 32-bit values (consequence of the SM3CF range axiom and the IV; lemma sm3f_range)
+(assert (forall ((m (Array Int Int)) (l Int) (i Int)) (! (=> (and (<= 0 i) (< i 8)) (and (<= 0 (select (SM3W m l) i)) (<= (select (SM3W m l) i) 4294967295))) :pattern ((select (SM3W m l) i)))))
